@@ -156,7 +156,18 @@ def index_at_hash(ast, m):
     ends = P5.spell_ends(segs[:k], m)
     return first_number(m[min(ends):]) if ends else 0
 
-def expected(t, addr, ty, chosen=None):
+def macro_index(name, m):
+    """what rBOILS_BEGIN reads: as many characters into the message as the NAME has in front of
+    its first '#' (not past the end of the message), then the first run of digits (0 without one)"""
+    h = name.find(b"#")
+    return first_number(m[min(h, len(m)):]) if h >= 0 else 0
+
+def finding_index(name, ast, m):
+    """the index the known finding index-behind-alternatives predicts: the macro's for a name with
+    an alternative group in front of its first '#', the documented one everywhere else"""
+    return macro_index(name, m) if alt_before_hash(name) else index_at_hash(ast, m)
+
+def expected(t, addr, ty, chosen=None, index=None):
     """What a root dispatch must do, in order, derived from the names alone:
          ("E", tid, idx, msg offset, obj, loc)   a port callback
          ("D", tid, msg offset, obj, loc)        the default handler of a table none of whose
@@ -196,7 +207,7 @@ def expected(t, addr, ty, chosen=None):
             if sub:
                 # the level below is addressed by what follows the matched name; the
                 # index an enumerated parent hands down is the one spelled at its first '#'
-                n = index_at_hash(ast, m)
+                n = index(name, ast, m) if index else index_at_hash(ast, m)
                 level(sub, off + end, child_obj(obj, t.tid, i, n))
         if not hit and t.dflt:
             out.append(("D", t.tid, off, obj, b"/" + full[off0:off]))
@@ -223,6 +234,12 @@ def parse_run(s, withloc):
     return evs, dfl, int(d["m"]), d.get("loc"), int(d["obj"]), seq
 
 def spec_check(case, impl):
+    return judge(case, impl, None)
+
+def judge(case, impl, index):
+    """the oracle; `index` = None: the index an enumerated sub-tree hands down is the one the
+    address spells at the name's first '#' (the property); classify() passes finding_index to
+    ask whether the output is exactly what the known finding predicts"""
     f = case.split(" ")
     if impl.startswith("CRASH") or impl in ("NOOUT", "BADCASE"):
         return "crash: " + impl[:300]
@@ -240,7 +257,7 @@ def spec_check(case, impl):
     # no-verdict ports (type string a proper extension of an alternative): which of them ran is
     # read off the run with buffer; the verdict must depend on (type specification, tags) only
     ran = frozenset((a, b, c, d) for a, b, c, d, _, _, _ in Lev)
-    seq_all, free = expected(t, addr, ty, ran)
+    seq_all, free = expected(t, addr, ty, ran, index)
     verdict = {}
     for fr in free:
         spec = names[fr[0]].ports[fr[1]][0].split(b":", 1)[1]
@@ -342,14 +359,44 @@ def classify(case, impl, failure):
     """index-behind-alternatives: an enumerated SUB-TREE port whose name has an alternative group in
     front of its first '#' ("p{q,r}#2/"): rBOILS_BEGIN (port-sugar.h) looks for the index as many
     characters into the message as the NAME has in front of its '#', so the child object is taken
-    from the wrong place.  The generator does not make such names (ASSUMPTIONS); a hand-written or
-    corpus case that does is classified here."""
+    from the wrong place.  The class is granted only when the output is EXACTLY what the finding
+    predicts and nothing else is wrong:
+      * the failure is one about a callback / default handler seen with another object
+        (spurious-callback, missing-callback, default-handler, default-handler-missing: the only
+        reports a wrong object number can produce - everything else is judged before or
+        independently of the object),
+      * the address reaches such a port (the port matches, so its callback runs and hands an
+        object down) and the number read at the macro's position differs from the one spelled at
+        the '#',
+      * and the whole oracle, run again with the macro's number for exactly these ports
+        (finding_index) and the documented number for every other port, accepts the output: same
+        events, same order, the objects below such a port are the child objects of the number at the
+        wrong position, loc / d.port / matches / default handlers all as the property demands.
+    So a tree that merely CONTAINS such a name does not excuse anything: a port that is not
+    reached, a port reached twice, a wrong loc, ... below or beside it stay violations."""
+    if not failure or failure.split(":")[0] not in ("spurious-callback", "missing-callback",
+                                                     "default-handler", "default-handler-missing"):
+        return None
     try:
-        t = parse_tree(case.split(" ")[1])
+        f = case.split(" ")
+        t = parse_tree(f[1])
+        addr, ty = unhx(f[2]), unhx(f[3])
+        seq, _ = expected(t, addr, ty)
     except Exception:
         return None
-    if failure and failure.split(":")[0] in ("spurious-callback", "missing-callback") and any(
-            sub is not None and alt_before_hash(name) for tb in walk(t) for name, sub in tb.ports):
+    names = {tb.tid: tb for tb in walk(t)}
+    wrong = False
+    for e in seq:                      # the ports on the addressed path (free ports included: they may hand down too)
+        if e[0] != "E":
+            continue
+        name, sub = names[e[1]].ports[e[2]]
+        if sub is not None and alt_before_hash(name):
+            m = addr[e[3]:]
+            if macro_index(name, m) != index_at_hash(parse_name(name), m):
+                wrong = True
+    if not wrong:
+        return None
+    if judge(case, impl, finding_index) is None:
         return "index-behind-alternatives"
     return None
 
@@ -770,7 +817,7 @@ LEVEL_TEXT = ("Proved per table of Ports::dispatch, for ANY callbacks, any numbe
               "documented form with ANY number of address components (a#2/b#3/, x/y/, a#2/k#2:i) every callback's loc is a "
               "prefix of the full address and a leaf's loc is the full address (C04_loc_full_address), the table below a "
               "sub-tree port receives exactly what follows the matched name (C04_snip_strips_matched_name), the index handed "
-              "down is the one spelled at the '#' (C04_index_at_hash). Names with alternatives {a,b,..}: the model's matcher is C05's "
+              "down is the one spelled at the '#' (C04_index_at_hash_partial). Names with alternatives {a,b,..}: the model's matcher is C05's "
               "match_path, so every tree theorem covers them; C04_loc_full_address and C04_snip_strips_matched_name hold for alternatives "
               "without '/' and ':' (alts_plain); the pinned code hashed { {ab,cd}x, ef, gh } and put the name's text into loc "
               "(C04_alternatives_refuted, two fix: commits, C04_alternatives_repaired; example C04_alternatives_nonvacuous: "
@@ -778,4 +825,4 @@ LEVEL_TEXT = ("Proved per table of Ports::dispatch, for ANY callbacks, any numbe
 LEVEL_NOTE = ("Trusted: Coq kernel, extraction, OCaml driver, harness (run-time built Ports, re-dispatching callbacks), the hook "
               "Ports::verif_tables, generators, the Python Spec oracle. The perfect-hash search is not modelled: its output "
               "is an input. Strategy independence is stated for literal single-component names (what the library hashes); "
-              "tables with '#' or '{' names take the linear scan in both runs. C04_index_at_hash is stated for a literal prefix in front of the '#'.")
+              "tables with '#' or '{' names take the linear scan in both runs. C04_index_at_hash_partial is stated for a literal prefix in front of the '#'.")
